@@ -517,6 +517,12 @@ func runCheck(id, tier, repo, keep string, writeEvidence bool) int {
 	}
 	// contract drift: contracts that no longer fit their functions were ignored (the functions
 	// inlined / verified without them). Never silent: without a violation the verdict is "don't know".
+	for _, k := range sortedStrKeys(eng.aliased) {
+		fmt.Printf("NOTE: property=%s %s: contract identifiers re-bound to renamed parameters / locals (%s); the clauses were proved with the new names\n", id, k, eng.aliased[k])
+	}
+	if len(eng.aliased) > 0 && undecided > 0 && len(eng.drift) == 0 {
+		eng.drift["renamed identifiers"] = "obligations failed in a function whose contract was re-bound to renamed locals (see NOTE lines): the guess may be wrong"
+	}
 	if len(eng.drift) > 0 {
 		for _, k := range sortedStrKeys(eng.drift) {
 			fmt.Printf("CONTRACT-DRIFT property=%s %s: %s\n", id, k, eng.drift[k])
@@ -626,7 +632,14 @@ func relFiles(fs []string) []string {
 func driftedObligation(eng *Engine, name string) bool {
 	eng.driftMu.Lock()
 	defer eng.driftMu.Unlock()
+	keys := map[string]bool{}
 	for k := range eng.drift {
+		keys[k] = true
+	}
+	for k := range eng.aliased {
+		keys[k] = true
+	}
+	for k := range keys {
 		fn := k
 		if i := strings.Index(fn, " / "); i >= 0 {
 			fn = fn[:i]
